@@ -116,6 +116,9 @@ type State struct {
 	model    *Model
 	aux      []*Term
 	nfresh   int
+	files    map[string]ghostFile
+	filePos  map[int]*Term
+	fileName map[int]string
 }
 
 func (st *State) clone() *State {
@@ -138,6 +141,7 @@ func (st *State) clone() *State {
 	n.model = st.model
 	n.aux = append([]*Term(nil), st.aux...)
 	n.nfresh = st.nfresh
+	n.files, n.filePos, n.fileName = st.files, st.filePos, st.fileName
 	if st.ghost != nil {
 		n.ghost = map[string]int{}
 		for k, v := range st.ghost {
